@@ -159,6 +159,13 @@ def resolve(expr, start={}):
                 return expr
             elif op in [Operator.QUOTE, Operator.QUASIQUOTE, Operator.ALIAS]:
                 return expr
+            elif op == Operator.CASE:
+                # clause keys are compared unevaluated: they are data and must stay unresolved
+                keyform = [resolve_vars(sub) for sub in expr[1:2]]
+                clauses = [WList([clause[0]] + [resolve_vars(sub) for sub in clause[1:]], line_info=clause.line_info)
+                           if isinstance(clause, WList) and len(clause) > 0 else clause
+                           for clause in expr[2:]]
+                return WList([Operator.CASE, *keyform, *clauses], line_info=expr.line_info)
             else:
                 return WList([resolve_vars(sub) for sub in expr], line_info=expr.line_info)
         elif isinstance(expr, Symbol):
